@@ -10,7 +10,8 @@ LIMIT_S = 10          # CPU-time limit (ITIMER_PROF) for the constructor and for
 WALL_S = 90           # wall-clock backstop (ITIMER_REAL) for the same steps: the machine may be loaded
 N = {"quick": 720, "thorough": 10800}
 CLS = {"mux": 1, "csrdec": 2, "csrbridge": 3, "register": 4, "action": 5, "monitor": 6, "csrevent": 7,
-       "wbcsr": 8, "wbdec": 9, "arbiter": 10, "sram": 11, "gpio": 12}
+       "wbcsr": 8, "wbdec": 9, "arbiter": 10, "sram": 11, "gpio": 12,
+       "nested": 2}      # decoders below other components (frozen maps); no model prediction, oracle only
 RULE = ("idx 0, 3 = K2 probes (500 one-byte readable registers in one shared chunk / in 500 chunks), idx 1, 2 = submodule-name-collision probes (csr.Register field paths, csr.Bridge register names incl. \"mux\"); otherwise the class "
         "is idx mod 12 over csr.Multiplexer (mock registers, natural / packed / unaligned / padded layouts, span <= 2^12, "
         "shadow_overlaps in {None,0,1,2,3,4,5,8}; thorough adds EVERY placement of two read/write registers in [0,6) x shadow_overlaps {None,0,1,2}: 70 x 4 = 280 cases), "
@@ -371,6 +372,8 @@ def gen_case(seed, tier, idx):
         return gen_collision(rnd, idx)
     if idx in (4, 5, 6, 7, 8):
         return gen_collision_literal(rnd, 4 if idx in (4, 6, 8) else 5)
+    if idx % 24 in (9, 21):
+        return {"engine": "elab", "kind": "nested", "sub": "rand", "pred": 0, "cfg": gen_nested(rnd, tier)}
     nk = len(KINDS)
     kind = KINDS[idx % nk]
     sub = "rand"
@@ -795,7 +798,68 @@ def build_gpio(cfg):
                                  input_stages=cfg["stages"]))
 
 
-BUILDERS = {"mux": build_mux, "csrdec": build_csrdec, "csrbridge": build_csrbridge, "register": build_register,
+def gen_nested(rnd, tier):
+    return {"v": rnd.randrange(5), "aw": rnd.choice([3, 4, 5, 6]), "dw": rnd.choice([8, 16, 32]),
+            "n": rnd.choice([1, 2, 3]), "named": rnd.randrange(2)}
+
+
+def build_nested(cfg):
+    """Components whose memory map is FROZEN when they are elaborated: a decoder below another decoder or below a
+    Wishbone-CSR bridge, or one whose map the user froze.  Parent and children are submodules of one wrapper, so
+    every elaboration of the wrapper elaborates all of them again."""
+    from amaranth import Module
+    from amaranth.lib import wiring
+    from amaranth_soc import csr, wishbone
+    from amaranth_soc.csr.wishbone import WishboneCSRBridge
+    from amaranth_soc.wishbone.sram import WishboneSRAM
+
+    class Wrap(wiring.Component):
+        def __init__(self, parts):
+            super().__init__({})
+            self.parts = parts
+
+        def elaborate(self, platform):
+            m = Module()
+            for i, p in enumerate(self.parts):
+                m.submodules[f"p{i}"] = p
+            return m
+    v, aw, dw, n = cfg["v"], cfg["aw"], cfg["dw"], cfg["n"]
+    nm = (lambda k: f"w{k}") if cfg["named"] else (lambda k: None)
+    if v in (0, 2, 3):
+        inners = []
+        for k in range(n):
+            inner = csr.Decoder(addr_width=aw, data_width=8)
+            for j in range(2):
+                sb = csr.Interface(addr_width=aw - 2, data_width=8, path=(f"s{k}_{j}",))
+                sb.memory_map = mm_of(aw - 2, 8)
+                inner.add(sb, name=f"leaf{j}")
+            inners.append(inner)
+        if v == 0:
+            top = csr.Decoder(addr_width=aw + 2, data_width=8)
+            for k, inner in enumerate(inners):
+                top.add(inner.bus, name=nm(k) or f"d{k}")
+            return Built(Wrap([top] + inners), extra=[top.bus])
+        if v == 2:
+            br = WishboneCSRBridge(inners[0].bus, data_width=dw)
+            return Built(Wrap([br, inners[0]]), extra=[br.wb_bus])
+        inners[0].bus.memory_map.freeze()                       # frozen by the user, elaborated stand-alone
+        return Built(Wrap([inners[0]]), extra=[inners[0].bus])
+    inners = []
+    for k in range(n):
+        inner = wishbone.Decoder(addr_width=aw, data_width=dw, granularity=8)
+        ram = WishboneSRAM(size=(dw // 8) * 4, data_width=dw, granularity=8)
+        inner.add(ram.wb_bus, name="ram")
+        inners.append((inner, ram))
+    if v == 1:
+        top = wishbone.Decoder(addr_width=aw + 2, data_width=dw, granularity=8)
+        for k, (inner, ram) in enumerate(inners):
+            top.add(inner.bus, name=nm(k) or f"d{k}")
+        return Built(Wrap([top] + [x for pr in inners for x in pr]), extra=[top.bus])
+    inners[0][0].bus.memory_map.freeze()
+    return Built(Wrap(list(inners[0])), extra=[inners[0][0].bus])
+
+
+BUILDERS = {"nested": build_nested, "mux": build_mux, "csrdec": build_csrdec, "csrbridge": build_csrbridge, "register": build_register,
             "action": build_action, "monitor": build_monitor, "csrevent": build_csrevent, "wbcsr": build_wbcsr,
             "wbdec": build_wbdec, "arbiter": build_arbiter, "sram": build_sram, "gpio": build_gpio}
 
